@@ -76,6 +76,12 @@ def check_expr(L, e, le):
         got = e.render(t)
         if got != want:
             return 'template %r: %r, expected %r' % (t, got, want)
+    # the same tree over wrapped user objects renders the same way
+    from core import build_expr, REPRESENTATIONS
+    for like in REPRESENTATIONS:
+        v = build_expr(enc, like=like)
+        if str(v) != text or v.render_as_readable() != rd:
+            return 'the same expression over wrapped user objects renders as %r / %r' % (str(v), v.render_as_readable())
     return None
 
 
